@@ -155,6 +155,7 @@ def run(ctx: Ctx):
     for name, fn in (("two_part_and_shapes", lambda: two_part_and_shapes(ctx, Time, drv, epochs)),
                      ("gps_week_edges", lambda: gps_week_edges(ctx, Time, drv)),
                      ("scalar_readout", lambda: scalar_readout(ctx, Time, epochs)),
+                     ("unsorted_arrays", lambda: unsorted_arrays(ctx, Time, drv)),
                      ("text_wide_years", lambda: text_wide_years(ctx, Time, drv)),
                      ("text_mutations", lambda: text_mutations(ctx, Time, drv, epochs)),
                      ("decimalyear_extras", lambda: decimalyear_extras(ctx, Time, drv)),
@@ -355,39 +356,96 @@ def one_format(ctx, Time, drv, scale, fmt, t0, j1, j2, epochs):
                 ctx.violate(f"scalar-shape:{fmt}", "scalar in, array out", {"scale": scale, "fmt": fmt})
 
 
+def _readout_vs_scalar(ctx, Time, scale, sel, label):
+    """every format read from the array of the epochs `sel` (in the given order) equals, element by element, what is read
+    from the scalar and from the length-1 Time of that element (`scalar_eq_array`, stated on the real code)"""
+    v1 = np.array([float(F(4903089, 2) + d) for d, _ in sel])
+    v2 = np.array([float(F(us, DAY_US)) for _, us in sel])
+    tn = Time(v1, val2=v2, fmt="jd", scale=scale)
+    for fmt in ALL:
+        try:
+            vn = getattr(tn, fmt)
+        except ValueError:
+            continue
+        except Exception as e:
+            ctx.violate(f"read-raises:{fmt}", f"{type(e).__name__}: {e}", {"scale": scale, "fmt": fmt})
+            continue
+        if (len(vn.week) if fmt == "gps_ws" else len(vn)) != len(sel):
+            ctx.violate(f"length:{fmt}", f".{fmt} of {len(sel)} epochs has another length", {"scale": scale, "fmt": fmt})
+            continue
+        for i in range(len(sel)):
+            case = {"scale": scale, "fmt": fmt, "jd1": float(v1[i]), "jd2": float(v2[i]), "index": i,
+                    "array_jd1": [float(x) for x in v1[:12]], "array_jd2": [float(x) for x in v2[:12]]}
+            ctx.count(label)
+            try:
+                ts = Time(float(v1[i]), val2=float(v2[i]), fmt="jd", scale=scale)
+                t1 = Time(np.array([v1[i]]), val2=np.array([v2[i]]), fmt="jd", scale=scale)
+                vs, vl = getattr(ts, fmt), getattr(t1, fmt)
+            except Exception as e:
+                ctx.violate(f"scalar-read-raises:{fmt}", f"{type(e).__name__}: {e}", case)
+                continue
+            a = scalar_value(fmt, vn, i)
+            b = tuple(vs) if fmt == "gps_ws" else vs
+            c = scalar_value(fmt, vl, 0)
+            same = (lambda x, y: all(float(p) == float(q) for p, q in zip(x, y))) if fmt == "gps_ws" else (lambda x, y: x == y)
+            if not same(a, b) or not same(a, c):
+                ctx.violate(f"scalar-vs-array-readout:{fmt}", f".{fmt} of a scalar / length-1 / element {i} of a length-{len(sel)} {scale} time differ: {b!r} / {c!r} / {a!r}", case)
+
+
+def unsorted_arrays(ctx, Time, drv):
+    """arrays that are *not* ordered in time and whose first and last epoch agree in year / day / GPS week / TAI-UTC table row
+    while epochs in between do not (stacked series of several stations, reversed and shuffled series, series that wrap
+    around a year end, a midnight, a week roll-over, a leap second) — leap years and leap-second years among them.  Every
+    format is read from the array and compared element by element with the model and with the scalar read-out, and a
+    Time is rebuilt from the values (round trip)."""
+    rng = ctx.rng
+    D = lambda y, m, d: (datetime(y, m, d) - DT2000).days
+    noon, us_any = 43200 * 10**6, lambda: rng.randint(0, DAY_US - 1)
+    lists = []
+    years = [2019, 2020, 1999, 2000, 2015, 2016, 2008, 2012, 2023, 2024, 2096, 2099] + [rng.randint(1981, 2098) for _ in range(ctx.budget(4, 60))]
+    for y in years:
+        # stacked series: the end of year y, the start of y + 1, then year y again (first and last in y)
+        lists.append(("stacked-years", [(D(y, 11, 15), noon), (D(y, 12, 15), us_any()), (D(y + 1, 1, 15), 0), (D(y + 1, 2, 15), us_any()),
+                                        (D(y, 10, 1), us_any()), (D(y, 11, 1), 1), (D(y, 12, 1), noon)]))
+        # first and last in y + 1, the year before and the year after in between, next to the boundaries
+        lists.append(("wrapped-year", [(D(y + 1, 3, 1), us_any()), (D(y, 12, 31), DAY_US - 1), (D(y + 1, 1, 1), 0), (D(y, 1, 1), 0), (D(y, 2, 28), us_any()),
+                                       (D(y + 2, 1, 1), 1), (D(y - 1, 12, 31), us_any()), (D(y + 1, 12, 31), DAY_US - 10)]))
+    for _ in range(ctx.budget(4, 40)):
+        y = rng.randint(1981, 2097)
+        srt = sorted((rng.randint(D(y, 1, 1), D(y + 3, 1, 1) - 1), us_any()) for _ in range(rng.randint(3, 9)))
+        lists.append(("reversed", srt[::-1]))
+        sh = srt[:]
+        rng.shuffle(sh)
+        same_year = [(D(y + 1, 6, 1), us_any())] + sh + [(D(y + 1, 7, 1), us_any())]
+        lists.append(("shuffled-first-last-same-year", same_year))
+    for d in (D(2016, 12, 31), D(2015, 6, 30), D(2000, 2, 29), D(1999, 12, 31), D(2019, 4, 6), rng.randint(D(1981, 1, 1), D(2099, 1, 1))):
+        # first and last on the same day (and in the same week / table row), others days, weeks and rows apart
+        lists.append(("wrapped-day", [(d, 10**6), (d + 1, 0), (d - 1, DAY_US - 1), (d + 7, us_any()), (d - 7 * 1024, noon), (d + 400, us_any()), (d, DAY_US - 2 * 10**6)]))
+    g0 = D(1980, 1, 6)
+    for wk in (1023, 1024, 2047, 2048, rng.randint(10, 3000)):
+        # first and last in the same GPS week, the neighbouring weeks in between
+        lists.append(("wrapped-week", [(g0 + 7 * wk + 1, us_any()), (g0 + 7 * wk + 7, 0), (g0 + 7 * wk - 1, DAY_US - 1), (g0 + 7 * (wk + 2), noon), (g0 + 7 * wk + 6, DAY_US - 1)]))
+    for name, eps in lists:
+        for scale in SCALES:
+            ctx.count(f"unsorted:{name}")
+            v1 = np.array([float(F(4903089, 2) + d) for d, _ in eps])
+            v2 = np.array([float(F(us, DAY_US)) for _, us in eps])
+            t0 = Time(v1, val2=v2, fmt="jd", scale=scale)
+            j1 = [frac(x) for x in np.asarray(t0.jd1)]
+            j2 = [frac(x) for x in np.asarray(t0.jd2)]
+            for fmt in ALL:
+                one_format(ctx, Time, drv, scale, fmt, t0, j1, j2, eps)      # vs the model, element by element, + round trip
+            _readout_vs_scalar(ctx, Time, scale, eps, "unsorted-vs-scalar")
+        ctx.traces += len(eps) * len(ALL) * len(SCALES)
+
+
 def scalar_readout(ctx, Time, epochs):
     """reading a format from a scalar, a length-1 and a length-n Time gives the same value element by element"""
     rng = ctx.rng
     must = [e for e in epochs[:10]]
     sel = must + rng.sample(epochs, min(len(epochs), ctx.budget(25, 400)))
     for scale in SCALES:
-        v1 = np.array([float(F(4903089, 2) + d) for d, _ in sel])
-        v2 = np.array([float(F(us, DAY_US)) for _, us in sel])
-        tn = Time(v1, val2=v2, fmt="jd", scale=scale)
-        for fmt in ALL:
-            try:
-                vn = getattr(tn, fmt)
-            except ValueError:
-                continue
-            except Exception as e:
-                ctx.violate(f"read-raises:{fmt}", f"{type(e).__name__}: {e}", {"scale": scale, "fmt": fmt})
-                continue
-            for i in range(len(sel)):
-                case = {"scale": scale, "fmt": fmt, "jd1": float(v1[i]), "jd2": float(v2[i])}
-                ctx.count("scalar-readout")
-                try:
-                    ts = Time(float(v1[i]), val2=float(v2[i]), fmt="jd", scale=scale)
-                    t1 = Time(np.array([v1[i]]), val2=np.array([v2[i]]), fmt="jd", scale=scale)
-                    vs, vl = getattr(ts, fmt), getattr(t1, fmt)
-                except Exception as e:
-                    ctx.violate(f"scalar-read-raises:{fmt}", f"{type(e).__name__}: {e}", case)
-                    continue
-                a = scalar_value(fmt, vn, i)
-                b = tuple(vs) if fmt == "gps_ws" else vs
-                c = scalar_value(fmt, vl, 0)
-                same = (lambda x, y: all(float(p) == float(q) for p, q in zip(x, y))) if fmt == "gps_ws" else (lambda x, y: x == y)
-                if not same(a, b) or not same(a, c):
-                    ctx.violate(f"scalar-vs-array-readout:{fmt}", f".{fmt} of a scalar / length-1 / length-n {scale} time differ: {b!r} / {c!r} / {a!r}", case)
+        _readout_vs_scalar(ctx, Time, scale, sel, "scalar-readout")
     # a gps_ws Time rebuilt from its own (n, 3) values, n = 1..6
     for n in range(1, 7):
         d0 = (datetime(1999, 8, 15) - DT2000).days
